@@ -33,7 +33,8 @@ OUTSIDE = ["TDM messages", "arbitrary numeric payload (floating-point formatting
 SCALES = ["UTC", "TAI", "TT"]
 FRAMES = ["EME2000", "TEME", "ITRF"]
 MAN_FRAMES = [None, "QSW", "TNW"]
-COV_FRAMES = [None, "same", "QSW", "TNW"]
+COV_FRAMES = [None, "same", "QSW", "other", "TNW"]      # "other": a regular frame different from the state's
+OTHER_FRAME = {"EME2000": "ITRF", "TEME": "EME2000", "ITRF": "EME2000"}
 
 
 def bounds(tier):
@@ -74,6 +75,13 @@ def _cmp_sv(a, b, what):
             errs.append(f"{what}: covariance values differ {np.abs(A - B).max()}")
         if not np.allclose(B, B.T):
             errs.append(f"{what}: decoded covariance not symmetric")
+        # the decoded covariance is a working object: it can be expressed in the frame of its state, like the original
+        try:
+            A2, B2 = np.array(a.cov.copy(frame=a.frame)), np.array(b.cov.copy(frame=b.frame))
+            if np.abs(A2 - B2).max() > 1e-9 * np.abs(A2).max() + 1e-12:
+                errs.append(f"{what}: covariance differs once expressed in the state's frame {np.abs(A2 - B2).max()}")
+        except Exception as e:  # noqa
+            errs.append(f"{what}: decoded covariance cannot be converted to the state's frame: {type(e).__name__}: {e}")
     return errs
 
 
@@ -116,6 +124,8 @@ def _attach_cov(sv, covf, k=0):
     sv.cov = Cov(sv, _cov_matrix(k), sv.frame)
     if covf in ("QSW", "TNW"):
         sv.cov.frame = covf
+    elif covf == "other":
+        sv.cov.frame = OTHER_FRAME[sv.frame.name]
 
 
 # --------------------------------------------------------------------------- OPM
@@ -129,10 +139,10 @@ def opm_group(fmt_fixed, kep_fixed, tier="quick"):
         ctx = choice("context", 3)                      # (time scale, frame) vary together
         scale, frame = SCALES[ctx], FRAMES[ctx]
         if tier == "quick":                              # quick: 3 covariance frames, 0 or 2 user-defined parameters
-            covf = COV_FRAMES[choice("cov", 3)]
+            covf = COV_FRAMES[choice("cov", 4)]
             ud = 2 * choice("user_defined", 2)
         else:
-            covf = COV_FRAMES[choice("cov", 4)]
+            covf = COV_FRAMES[choice("cov", 5)]
             ud = choice("user_defined", 3)               # 0, 1 or 2 user-defined parameters
         kep = kep_fixed
         nman = choice("nman", 3)
